@@ -16,10 +16,14 @@ driver_for() {
 # gen_overlay: hooks are add-only files injected with -overlay (nothing is written to /repo)
 gen_overlay() {
   python3 - "$VERIF" "$REPO" > "$BUILD/overlay.json" <<'PY'
-import json, sys, os
+import json, sys, os, subprocess
 verif, repo = sys.argv[1], sys.argv[2]
+modcache = subprocess.check_output(["go", "env", "GOMODCACHE"], cwd=repo).decode().strip()
 m = {
   repo + "/rel/zz_verif_shape.go": verif + "/hooks/rel_zz_verif_shape.go.txt",
+  # E3 seams: hash seeds of arr-ai/hash and of frozen's internal hash package become a function of $VERIF_HASH_SEED
+  modcache + "/github.com/arr-ai/hash@v1.1.0/zz_verif_seed.go": verif + "/hooks/hash_zz_verif_seed.go.txt",
+  modcache + "/github.com/arr-ai/frozen@v1.11.0/internal/pkg/hash/zz_verif_seed.go": verif + "/hooks/hash_zz_verif_seed.go.txt",
 }
 print(json.dumps({"Replace": m}, indent=1))
 PY
